@@ -340,9 +340,9 @@ func TestVerif(t *testing.T) {
 			History  []lop  `json:"history"`
 		}
 		hist := []histScenario{
-			{"login-history/velocity/backend-1.19.4", config.VelocityForwardingMode, version.Minecraft_1_19_4.Protocol},
-			{"login-history/velocity/backend-1.20.2", config.VelocityForwardingMode, version.Minecraft_1_20_2.Protocol},
-			{"login-history/none/backend-1.19.4", config.NoneForwardingMode, version.Minecraft_1_19_4.Protocol},
+			{name: "login-history/velocity/backend-1.19.4", mode: config.VelocityForwardingMode, backend: version.Minecraft_1_19_4.Protocol},
+			{name: "login-history/velocity/backend-1.20.2", mode: config.VelocityForwardingMode, backend: version.Minecraft_1_20_2.Protocol},
+			{name: "login-history/none/backend-1.19.4", mode: config.NoneForwardingMode, backend: version.Minecraft_1_19_4.Protocol},
 			{name: "login-history/legacy/backend-1.19.4", mode: config.LegacyForwardingMode, backend: version.Minecraft_1_19_4.Protocol},
 			{name: "login-history/bungeeguard/backend-1.20.2", mode: config.BungeeGuardForwardingMode, backend: version.Minecraft_1_20_2.Protocol},
 			{name: "login-history/velocity+plugin/backend-1.19.4", mode: config.VelocityForwardingMode, backend: version.Minecraft_1_19_4.Protocol, plugin: true},
